@@ -8,6 +8,12 @@ Every entry (circuit, {g, map, score}) returned by the real `AlternateTargetSolv
   (ii) the listed graph `g` lies in the local-complementation orbit of the renamed target (orbit computed by an independent BFS);
   (iii) no two entries list the same graph; the map is a permutation of the vertices.
 Settings grid: n_iso in {1,2,5} x n_lc in {1,3,10} x every lc_method x seeds, including the default setting object.
+
+The result assembly of `solve` is MODELLED (Model/AltTarget.lean; theorems C10.dedup_keeps_one_per_key, solve_result_correct): on every
+run the nested loops and the duplicate removal are observed inside the real `solve` (sys.monitoring line events on its code object: the
+per-isomorph `lc_graphs` / `rmap`, and `adj_list` / `set_list` / `redundant_indices` / `results_list` just before the deletion) and
+compared exactly with the model (`alt.solve`, `alt.dedup`): same classes, same redundant indices, same surviving entries in the same
+order with the same maps.  `relabel` / composition / isomorphism are compared with `alt.relabel` on random graphs and permutations.
 """
 import itertools
 
@@ -21,10 +27,15 @@ from harness.common import Driver, Result, err_class
 LEVEL = "translation_validation"
 TRUSTED_BASE = [
     "Lean 4.33 kernel; theorem C02.validator_sound / C10.entry_validator_sound on top of the C07/C01 tableau semantics",
-    "the alternate-target solver itself (isomorph search, orbit walks, LC conversion gates) is NOT modelled here; every one of its outputs is validated",
+    "Lean theorems about the modelled result assembly (duplicate removal for every set iteration order, relabelling composition / isomorphism, outer loops with the parts as parameters); "
+    "correspondence of that model with solve(): exact comparison of the observed loop state on every run (testing)",
+    "the parts the loops call (isomorph search, orbit walks: C16; LC conversion gates: C09; time-reversed solver: C02) are parameters of the model here; every output of the real solver is validated",
     "independent Python BFS over local complementations for orbit membership (n <= 7)",
 ]
-ASSUMPTIONS = ["connected targets (the quantifier); targets with isolated vertices hit the known finding D3 of C02"]
+ASSUMPTIONS = [
+    "connected targets (the quantifier); targets with isolated vertices hit the known finding D3 of C02",
+    "the iteration order of a Python set of ints (`list(s)[0]`, which entry of a class survives) is a parameter of the model; the harness reads it off the observed sets",
+]
 
 LC_METHODS = [None, "lc_with_iso", "random", "random_with_iso", "random_with_rep", "linear", "depth_first", "rgs"]
 
@@ -66,6 +77,129 @@ def relabel_by_map(adj, rmap):
     return b
 
 
+def traced_solve(solver):
+    """run solver.solve() and observe, without touching the code, the state of its loops: per isomorph (iso adjacency, lc adjacencies, rmap,
+    the lc graph objects) and, just before the deletion loop, (adj_list, set_list as lists in iteration order, redundant_indices, results_list).
+    Line events are requested for the code object of `solve` only (sys.monitoring, Python >= 3.12)."""
+    import inspect
+    import sys
+
+    import networkx as nx
+
+    fn = type(solver).solve
+    code = fn.__code__
+    cap = {"isos": [], "pre": None}
+    try:
+        lines, first = inspect.getsourcelines(fn)
+    except OSError:
+        return solver.solve(), None
+
+    def find(text):
+        for k, ln in enumerate(lines):
+            if text in ln:
+                return first + k
+        return None
+
+    l_sort, l_inner = find("redundant_indices.sort()"), find("for lc_graph in lc_graphs:")
+    mon = sys.monitoring
+    tool = next((t for t in (3, 4, 5, 2, 1) if mon.get_tool(t) is None), None)
+    if l_sort is None or l_inner is None or tool is None:
+        return solver.solve(), None
+    seen = set()
+
+    def on_line(c, line):
+        if c is not code or line not in (l_sort, l_inner):
+            return
+        loc = sys._getframe(1).f_locals
+        if line == l_inner:
+            iso = loc.get("iso_graph")
+            if id(iso) not in seen:
+                seen.add(id(iso))
+                cap["isos"].append(dict(iso=nx.to_numpy_array(iso).astype(int), lcs=list(loc.get("lc_graphs")), rmap=dict(loc.get("rmap"))))
+        elif cap["pre"] is None:
+            cap["pre"] = dict(adj_list=[np.asarray(a).astype(int) for a in loc["adj_list"]], sets=[list(x) for x in loc["set_list"]],
+                              red=list(loc["redundant_indices"]), results=list(loc["results_list"]))
+
+    mon.use_tool_id(tool, "verif-c10")
+    try:
+        mon.register_callback(tool, mon.events.LINE, on_line)
+        mon.set_local_events(tool, code, mon.events.LINE)
+        out = solver.solve()
+    finally:
+        mon.set_local_events(tool, code, 0)
+        mon.register_callback(tool, mon.events.LINE, None)
+        mon.free_tool_id(tool)
+    return out, (cap if cap["pre"] is not None else None)
+
+
+def check_assembly(res, inp, n, out, cap, pending):
+    """exact comparison of the observed loops / duplicate removal with the model"""
+    import networkx as nx
+
+    pre = cap["pre"]
+    keys = [tu.bits(a) for a in pre["adj_list"]]
+    picks = [(min(s), s[0]) for s in pre["sets"]]
+    if any(h != p_ for h, p_ in picks):
+        res.branch(["dedup:set-yields-non-minimal-first"])
+    pick_tok = ",".join(f"{h}:{p_}" for h, p_ in picks) or "-"
+    pos = {id(e): k for k, e in enumerate(pre["results"])}
+    kept = [pos.get(id(e), -1) for e in out]
+    impl = dict(sets=[sorted(s) for s in pre["sets"]], red=sorted(pre["red"]), kept=kept)
+    pending.append((f"alt.dedup keys={','.join(keys) or '-'} pick={pick_tok}", dict(inp, impl=impl, what="dedup")))
+    # the loops: every entry before the removal is (isomorph i, its k-th LC graph) in loop order, with the isomorph's map
+    src, ok = [], True
+    flat = [(i, k, lc, iso["rmap"]) for i, iso in enumerate(cap["isos"]) for k, lc in enumerate(iso["lcs"])]
+    if len(flat) != len(pre["results"]):
+        ok = False
+    else:
+        for (i, k, lc, rmap), e in zip(flat, pre["results"]):
+            if e[1]["g"] is not lc or e[1]["map"] != rmap:
+                ok = False
+            src.append(f"{i}.{k}")
+    lab = lambda m: ".".join(str(m[u]) for u in range(n))  # noqa: E731
+    try:
+        maps = [lab(iso["rmap"]) for iso in cap["isos"]]
+        lcs = [",".join(tu.bits(nx.to_numpy_array(lc).astype(int)) for lc in iso["lcs"]) or "-" for iso in cap["isos"]]
+    except Exception:  # noqa: BLE001 (a map that is not total on the vertices is reported by the entry checks)
+        return
+    impl2 = dict(pre=src if ok else None, out=[src[k] for k in kept] if ok and all(k >= 0 for k in kept) else None,
+                 maps=[lab(e[1]["map"]) for e in out])
+    pending.append((f"alt.solve n={n} isos={';'.join(tu.bits(iso['iso']) for iso in cap['isos'])} lcs={';'.join(lcs)} maps={';'.join(maps)} pick={pick_tok}",
+                    dict(inp, impl=impl2, what="loops")))
+
+
+def check_relabel(ctx, res, drv, pending):
+    """relabel / composition / isomorphism of relabel_module.py against the model's renamed adjacency"""
+    import networkx as nx
+    from graphiq.utils.relabel_module import get_relabel_map, relabel
+
+    rng = ctx.rng
+    n = rng.randrange(2, 8)
+    adj = nx.to_numpy_array(nx.gnp_random_graph(n, rng.uniform(0.2, 0.8), seed=rng.getrandbits(30))).astype(int)
+    p = rng.sample(range(n), n)
+    q = rng.sample(range(n), n)
+    inp = {"adjacency": tu.bits(adj), "n": n, "p": p, "q": q}
+    res.evaluations += 1
+    try:
+        r1 = relabel(adj, np.array(p))
+        r2 = relabel(r1, np.array(q))
+        rc = relabel(adj, np.array([q[p[u]] for u in range(n)]))
+        m = get_relabel_map(adj, r1)
+    except Exception as e:  # noqa: BLE001
+        res.violation(f"relabel:raises:{err_class(e)}", f"relabel / get_relabel_map raised {err_class(e)}: {str(e)[:100]}", input=inp)
+        return
+    # direct oracle: the reported map is an isomorphism adj -> relabel(adj, p); so is p itself
+    mm = {a: b for a, b in m.items() if a != -1}
+    for name, mp in (("get_relabel_map", mm), ("labels", dict(enumerate(p)))):
+        if sorted(mp.values()) != list(range(n)) or any(adj[u, v] != r1[mp[u], mp[v]] for u in range(n) for v in range(n)):
+            res.violation(f"relabel:{name}:not-an-isomorphism", f"{name} is not an isomorphism from the graph onto relabel(graph, labels)", input=inp)
+    if not np.array_equal(r2, rc):
+        res.violation("relabel:composition", "relabel(relabel(A, p), q) differs from relabel(A, q∘p)", input=inp)
+    impl = dict(a=tu.bits(r1), then=tu.bits(r2), comp=tu.bits(rc), iso="1")
+    pending.append((f"alt.relabel n={n} a={tu.bits(adj)} p={','.join(map(str, p))} q={','.join(map(str, q))}", dict(inp, impl=impl, what="relabel")))
+    res.nontrivial("relabel", inp["adjacency"], tuple(p), tuple(q))
+
+
 def run_setting(ctx, res, drv, adj, kw, seed, pending, default=False, scramble=False):
     import networkx as nx
     from graphiq.solvers.alternate_target_solver import AlternateTargetSolver, AlternateTargetSolverSetting
@@ -85,7 +219,7 @@ def run_setting(ctx, res, drv, adj, kw, seed, pending, default=False, scramble=F
         target_graph.add_edges_from((u, v) for u in range(n) for v in range(u + 1, n) if adj[u, v])
         inp["node_insertion_order"] = order
         solver = AlternateTargetSolver(target=target_graph, solver_setting=setting, seed=seed)
-        out = solver.solve()
+        out, cap = traced_solve(solver)
     except Exception as e:  # noqa: BLE001
         res.count("errors", err_class(e))
         import math
@@ -98,6 +232,10 @@ def run_setting(ctx, res, drv, adj, kw, seed, pending, default=False, scramble=F
         res.violation(f"solve:raises:{err_class(e)}", f"AlternateTargetSolver raised {err_class(e)}: {str(e)[:150]}", input=inp)
         return
     res.branch([f"entries={min(len(out), 9)}", f"method={kw.get('lc_method')}"])
+    if cap is not None:
+        check_assembly(res, inp, n, out, cap, pending)
+    else:
+        res.count("errors", "assembly-not-observed")
     graphs = []
     for k, (circuit, info) in enumerate(out):
         # get_relabel_map marks the identity map with an extra entry {-1: "self"}; the map proper is on the vertices
@@ -139,6 +277,28 @@ def run_setting(ctx, res, drv, adj, kw, seed, pending, default=False, scramble=F
 
 def flush(res, drv, pending):
     for rep, (ln, einp) in zip(drv.batch([p[0] for p in pending]), pending):
+        what = einp.get("what")
+        if what in ("dedup", "loops", "relabel"):
+            einp = dict(einp)
+            impl = einp.pop("impl")
+            einp.pop("what")
+            if rep["_status"] != "ok":
+                res.exact_break(f"solve:{what}", input=einp, impl=impl, model=rep["_raw"][:300])
+                continue
+            nums = lambda t: [] if t in ("-", "") else [int(x) for x in t.split(",")]  # noqa: E731
+            if what == "dedup":
+                model = dict(sets=[] if rep["sets"] == "-" else [[int(x) for x in c.split(".")] for c in rep["sets"].split("|")],
+                             red=nums(rep["red"]), kept=nums(rep["kept"]))
+            elif what == "loops":
+                lst = lambda t: [] if t in ("-", "") else t.split(",")  # noqa: E731
+                model = dict(pre=lst(rep["pre"]), out=lst(rep["out"]), maps=[] if rep.get("maps", "") == "" else rep["maps"].split(";"))
+            else:
+                model = dict(a=rep["a"], then=rep["then"], comp=rep["comp"], iso=rep["iso"])
+            if model == impl:
+                res.traces_validated += 1
+            else:
+                res.exact_break(f"solve:{what}" if what != "relabel" else "relabel", input=einp, impl=impl, model=model)
+            continue
         if rep["_status"] != "ok":
             res.violation("entry:validator-error", "the verified validator could not run the entry's circuit", input=einp, model=rep["_raw"][:200])
         elif rep["gen"] != "1":
@@ -203,6 +363,8 @@ def run(ctx, budget=1.0):
             run_setting(ctx, res, drv, adj, {}, rng.randrange(1, 1000), pending, default=True, scramble=rng.random() < 0.5)
         if len(pending) > 60:
             flush(res, drv, pending)
+    for _ in range(int((60 if ctx.quick else 600) * budget)):
+        check_relabel(ctx, res, drv, pending)
     for method, adjs in special.items():
         for adj in adjs:
             kw = dict(n_iso_graphs=rng.choice([1, 2]), n_lc_graphs=rng.choice([1, 3, 10]), lc_method=method)
